@@ -74,6 +74,7 @@ func respSets(thorough bool) []labelled {
 		{"plain", []string{"S: v"}},
 		{"url", []string{"L: http://h/p"}},
 		{"no-space-colon", []string{"N:a:b"}},
+		{"colon-then-separator", []string{"T:a: b", "W:\tv"}},
 		{"no-colon", []string{"Bad"}},
 	}
 	if thorough {
